@@ -274,7 +274,8 @@ impl<S: HasComponent<Component>> Condition<S> for IfOdd {
 
     fn evaluate(input: &mut vm::ExpansionInput<S>) -> txl::Result<bool> {
         let n = i32::parse(input)?;
-        Ok((n % 2) == 1)
+        // Note that in Rust -3 % 2 is -1, so we can't compare the remainder to 1.
+        Ok((n % 2) != 0)
     }
 }
 
